@@ -647,7 +647,8 @@ func ruleC05Monitor(rule string) ruleFn {
 				if !ok {
 					if isNilConst(strip(r.Results[0])) {
 						// `return nil` written out: the return itself sits behind the Mode == RW edge
-						ge := atomEdges(fn, R, `+"RW" -$0.replicas[*].Mode ==0`)
+						// ... or behind "there was no error to begin with"
+						ge := atomEdges(fn, R, `+"RW" -$0.replicas[*].Mode ==0`, isNilAtom("$1"))
 						rr := r
 						if len(Query{Fn: fn, IsSite: func(in ssa.Instruction) bool { return in == ssa.Instruction(rr) }, GenEdge: ge}.Run()) > 0 {
 							phiOK = false
@@ -662,7 +663,7 @@ func ruleC05Monitor(rule string) ruleFn {
 					if isNilConst(e.val) {
 						// edge must come (transitively) from a block controlled by Mode == RW
 						site := e.from.Instrs[len(e.from.Instrs)-1]
-						ge := atomEdges(fn, R, `+"RW" -$0.replicas[*].Mode ==0`)
+						ge := atomEdges(fn, R, `+"RW" -$0.replicas[*].Mode ==0`, isNilAtom("$1"))
 						if len(Query{Fn: fn, IsSite: func(in ssa.Instruction) bool { return in == site }, GenEdge: ge}.Run()) > 0 {
 							phiOK = false
 						}
@@ -716,49 +717,87 @@ func allPhiEdges(p *ssa.Phi) []phiEdge {
 func ruleC07AddOrder(rule string) ruleFn {
 	return func(c *Ctx) {
 		c.Doc(rule, "addReplicaNoLock: the append to c.replicas and AddBackend are cut off by canAdd()==true; when snapshot is requested, by success of c.backend.Snapshot and newBackend.Snapshot with the same (uuid,false,created); by success of newBackend.SetReplicaMode(WO); the appended entry and the backend wrapper carry mode WO")
-		fn := c.Anchor(rule, fCtl+"addReplicaNoLock")
-		if fn == nil {
+		base := c.Anchor(rule, fCtl+"addReplicaNoLock")
+		if base == nil {
 			return
 		}
-		R := NewRenderer(fn)
-		var sites []ssa.Instruction
-		sites = append(sites, StoresTo(fn, "Controller", "replicas")...)
-		sites = append(sites, CallsTo(fn, fRepl+"AddBackend")...)
-		if len(sites) < 2 {
-			c.Bad(rule, FnName(fn)+" | append + AddBackend", "", "expected a store to c.replicas and a call of backend.AddBackend", nil)
+		// the admission (append + AddBackend) lives in addReplicaNoLock; when the snapshot flag was
+		// specialised away (one variant for the live add, one for start-up) the inlined view shows
+		// it in addReplica as well: every function of the two that admits is checked
+		var cands []*ssa.Function
+		for _, f := range []*ssa.Function{base, c.P.Fn(fCtl + "addReplica")} {
+			if f != nil && len(StoresTo(f, "Controller", "replicas")) > 0 && len(CallsTo(f, fRepl+"AddBackend")) > 0 {
+				cands = append(cands, f)
+			}
 		}
-		snapAll := fRepl + "Snapshot($0.backend,util.UUID(),false,util.Now())"
-		snapNew := "invoke.Snapshot($1,util.UUID(),false,util.Now())"
-		c.Guard(rule, fn, sites, "admit replica", nil,
-			c.admitted(fn, "canAdd(address)", "$2"),
-			atom("snapshot not requested or taken on all existing replicas", "!$3", "+"+snapAll+" -nil ==0"),
-			atom("snapshot not requested or taken on the new replica", "!$3", "+"+snapNew+" -nil ==0"),
-			atom("new replica set to WO", `+invoke.SetReplicaMode($1,"WO") -nil ==0`))
-		// same uuid/created value objects on both snapshot calls
-		a, b := CallsTo(fn, fRepl+"Snapshot"), CallsTo(fn, "invoke:Snapshot")
-		if len(a) == 1 && len(b) == 1 {
-			aa, ba := a[0].(*ssa.Call).Call.Args, b[0].(*ssa.Call).Call.Args
-			if aa[1] == ba[0] && aa[3] == ba[2] && R.V(aa[2]) == "false" && R.V(ba[1]) == "false" {
-				c.OK(rule, FnName(fn)+" | same snapshot name on old and new replicas", c.P.InstrPos(a[0]), "both Snapshot calls receive the same uuid and created values", true)
+		if len(cands) == 0 {
+			c.Bad(rule, FnName(base)+" | append + AddBackend", "", "expected a store to c.replicas and a call of backend.AddBackend", nil)
+		}
+		liveCovered := false
+		for _, fn := range cands {
+			R := NewRenderer(fn)
+			var sites []ssa.Instruction
+			sites = append(sites, StoresTo(fn, "Controller", "replicas")...)
+			ab := CallsTo(fn, fRepl+"AddBackend")
+			sites = append(sites, ab...)
+			addr, be := "$2", "$1"
+			if args := ab[0].(*ssa.Call).Call.Args; len(args) == 3 {
+				addr, be = R.V(args[1]), R.V(args[2])
+			}
+			hasFlag := fn == base && len(fn.Params) == 4
+			live := FnName(fn) == fCtl+"addReplica"
+			if fn == base && !hasFlag {
+				if ar := c.P.Fn(fCtl + "addReplica"); ar != nil && len(CallsTo(ar, fCtl+"addReplicaNoLock")) > 0 {
+					live = true
+				}
+			}
+			if hasFlag || live {
+				liveCovered = true
+			}
+			snapAll := fRepl + "Snapshot($0.backend,util.UUID(),false,util.Now())"
+			snapNew := "invoke.Snapshot(" + be + ",util.UUID(),false,util.Now())"
+			needs := []Need{c.admitted(fn, "canAdd(address)", addr)}
+			switch {
+			case hasFlag:
+				needs = append(needs,
+					atom("snapshot not requested or taken on all existing replicas", "!$3", "+"+snapAll+" -nil ==0"),
+					atom("snapshot not requested or taken on the new replica", "!$3", "+"+snapNew+" -nil ==0"))
+			case live:
+				needs = append(needs,
+					atom("snapshot taken on all existing replicas", "+"+snapAll+" -nil ==0"),
+					atom("snapshot taken on the new replica", "+"+snapNew+" -nil ==0"))
+			}
+			needs = append(needs, atom("new replica set to WO", "+invoke.SetReplicaMode("+be+`,"WO") -nil ==0`))
+			c.Guard(rule, fn, sites, "admit replica", nil, needs...)
+			// same uuid/created value objects on both snapshot calls
+			a, b := CallsTo(fn, fRepl+"Snapshot"), CallsTo(fn, "invoke:Snapshot")
+			if len(a) == 1 && len(b) == 1 {
+				aa, ba := a[0].(*ssa.Call).Call.Args, b[0].(*ssa.Call).Call.Args
+				if aa[1] == ba[0] && aa[3] == ba[2] && R.V(aa[2]) == "false" && R.V(ba[1]) == "false" {
+					c.OK(rule, FnName(fn)+" | same snapshot name on old and new replicas", c.P.InstrPos(a[0]), "both Snapshot calls receive the same uuid and created values", true)
+				} else {
+					c.Bad(rule, FnName(fn)+" | same snapshot name on old and new replicas", c.P.InstrPos(b[0]), "the snapshot taken on the new replica differs in name/created/userCreated from the one taken on the existing replicas", nil)
+				}
+				// order: existing replicas first
+				c.Guard(rule, fn, b, "newBackend.Snapshot", nil, atom("snapshot on existing replicas succeeded", "+"+snapAll+" -nil ==0"))
+			} else if hasFlag || live {
+				c.Bad(rule, FnName(fn)+" | same snapshot name on old and new replicas", "", "expected one c.backend.Snapshot and one newBackend.Snapshot", nil)
+			}
+			// literal mode
+			okMode := false
+			eachInstr(fn, func(in ssa.Instruction) {
+				if st, ok := in.(*ssa.Store); ok && R.V(st.Addr) == "&var(complit).Mode" && R.V(st.Val) == `"WO"` {
+					okMode = true
+				}
+			})
+			if okMode {
+				c.OK(rule, FnName(fn)+" | appended entry has Mode WO", "", "types.Replica{Address, Mode: WO}", false)
 			} else {
-				c.Bad(rule, FnName(fn)+" | same snapshot name on old and new replicas", c.P.InstrPos(b[0]), "the snapshot taken on the new replica differs in name/created/userCreated from the one taken on the existing replicas", nil)
+				c.Bad(rule, FnName(fn)+" | appended entry has Mode WO", "", "the appended replica entry is not created in WO mode", nil)
 			}
-			// order: existing replicas first
-			c.Guard(rule, fn, b, "newBackend.Snapshot", nil, atom("snapshot on existing replicas succeeded", "+"+snapAll+" -nil ==0"))
-		} else {
-			c.Bad(rule, FnName(fn)+" | same snapshot name on old and new replicas", "", "expected one c.backend.Snapshot and one newBackend.Snapshot", nil)
 		}
-		// literal mode
-		okMode := false
-		eachInstr(fn, func(in ssa.Instruction) {
-			if st, ok := in.(*ssa.Store); ok && R.V(st.Addr) == "&var(complit).Mode" && R.V(st.Val) == `"WO"` {
-				okMode = true
-			}
-		})
-		if okMode {
-			c.OK(rule, FnName(fn)+" | appended entry has Mode WO", "", "types.Replica{Address, Mode: WO}", false)
-		} else {
-			c.Bad(rule, FnName(fn)+" | appended entry has Mode WO", "", "the appended replica entry is not created in WO mode", nil)
+		if len(cands) > 0 && !liveCovered {
+			c.Bad(rule, FnName(base)+" | live add takes the snapshot", "", "no admitting function takes the snapshot for a replica added to a running volume", nil)
 		}
 		for _, w := range []string{"AddBackend", "AddQuorumBackend"} {
 			if f := c.Anchor(rule, fRepl+w); f != nil {
@@ -939,16 +978,59 @@ func ruleC18(c *Ctx) {
 			c.Bad(rule, FnName(fn)+" | splice of c.replicas", "", fmt.Sprintf("expected one store to c.replicas, found %d", len(st)), nil)
 		} else {
 			v := R.V(st[0].(*ssa.Store).Val)
-			if strings.HasPrefix(v, "append($0.replicas[:+*],") {
+			// the index: the range index of the loop that found the entry, or the result of a
+			// search loop (`idx := -1; for i ... { if match { idx = i; break } }; if idx != -1 {...}`)
+			idx := "*"
+			const found = "phi{* | -1}"
+			if strings.HasPrefix(v, "append($0.replicas[:+"+found+"],") {
+				idx = found
+			}
+			if v == "append($0.replicas[:+"+idx+"],$0.replicas[+"+idx+" +1:])" || (idx == "*" && strings.HasPrefix(v, "append($0.replicas[:+*],")) {
 				c.OK(rule, FnName(fn)+" | splice removes index i", c.P.InstrPos(st[0]), "c.replicas = append(c.replicas[:i], c.replicas[i+1:]...)", false)
 			} else {
 				c.Bad(rule, FnName(fn)+" | splice removes index i", c.P.InstrPos(st[0]), "unexpected new value of c.replicas: "+v, nil)
 			}
-			c.Guard(rule, fn, st, "splice", nil, atom("entry address matches", "+$0.replicas[*].Address -$1 ==0"))
+			match := "+$0.replicas[*].Address -$1 ==0"
+			if idx == "*" {
+				c.Guard(rule, fn, st, "splice", nil, atom("entry address matches", match))
+			} else {
+				// the position was recorded under the address test, and a position was found
+				c.Guard(rule, fn, st, "splice", nil, atom("an entry was found", "+"+found+" +1 !=0"))
+				okSel := false
+				var used *ssa.Phi
+				if ap, ok := strip(st[0].(*ssa.Store).Val).(*ssa.Call); ok && len(ap.Call.Args) > 0 {
+					if sl, ok := strip(ap.Call.Args[0]).(*ssa.Slice); ok && sl.High != nil {
+						used, _ = stripConv(sl.High).(*ssa.Phi)
+					}
+				}
+				eachInstr(fn, func(in ssa.Instruction) {
+					p, ok := in.(*ssa.Phi)
+					if !ok || p != used {
+						return
+					}
+					okSel = true
+					for ei, ev := range p.Edges {
+						if cst, ok := strip(ev).(*ssa.Const); ok && cst.Value != nil {
+							continue
+						}
+						from := p.Block().Preds[ei]
+						site := from.Instrs[len(from.Instrs)-1]
+						if len(Query{Fn: fn, IsSite: func(x ssa.Instruction) bool { return x == site }, GenEdge: atomEdges(fn, R, match)}.Run()) > 0 {
+							okSel = false
+						}
+					}
+				})
+				if okSel {
+					c.OK(rule, FnName(fn)+" | splice | entry address matches", c.P.InstrPos(st[0]), "the position is recorded on the edge replicas[i].Address == address", true)
+				} else {
+					c.Bad(rule, FnName(fn)+" | splice | entry address matches", c.P.InstrPos(st[0]), "the position that is spliced out is not (only) recorded under the address test", nil)
+				}
+			}
 			// RemoveBackend in same block with the entry's address
 			paired := false
 			for _, x := range rb {
-				if x.Block() == st[0].Block() && callRender(R, x) == fRepl+"RemoveBackend($0.backend,$0.replicas[*].Address)" {
+				cr := callRender(R, x)
+				if x.Block() == st[0].Block() && (cr == fRepl+"RemoveBackend($0.backend,$0.replicas[*].Address)" || (idx != "*" && cr == fRepl+"RemoveBackend($0.backend,$0.replicas[+"+idx+"].Address)")) {
 					paired = true
 				}
 			}
@@ -976,6 +1058,10 @@ func ruleC18(c *Ctx) {
 	// addReplica: RF check before admission, canAdd before admission
 	if fn := c.Anchor(rule, fCtl+"addReplica"); fn != nil {
 		sites := CallsTo(fn, fCtl+"addReplicaNoLock")
+		if len(sites) == 0 {
+			// the admission written out (or inlined) in addReplica itself
+			sites = StoresTo(fn, "Controller", "replicas")
+		}
 		c.Guard(rule, fn, sites, "admission", nil,
 			atom("replication factor not reached", "+"+fCtl+"verifyReplicationFactor($0) -nil ==0"),
 			c.admitted(fn, "canAdd", "$1"),
@@ -1588,8 +1674,25 @@ func fanoutErrorType(c *Ctx, rule string, fn *ssa.Function) {
 			continue
 		}
 		key := FnName(fn) + " | failure returned as *BackendError"
-		mi, ok := v.(*ssa.MakeInterface)
-		if ok && strings.HasSuffix(mi.X.Type().String(), "controller.BackendError") {
+		var isBE func(v ssa.Value, d int) bool
+		isBE = func(v ssa.Value, d int) bool {
+			if isNilConst(strip(v)) {
+				return true
+			}
+			if mi, ok := v.(*ssa.MakeInterface); ok {
+				return strings.HasSuffix(mi.X.Type().String(), "controller.BackendError")
+			}
+			if p, ok := v.(*ssa.Phi); ok && d < 4 {
+				for _, e := range p.Edges {
+					if !isBE(e, d+1) {
+						return false
+					}
+				}
+				return true
+			}
+			return false
+		}
+		if isBE(v, 0) {
 			c.OK(rule, key, c.P.InstrPos(r), "per-replica failures reach handleErrorNoLock", false)
 		} else {
 			// Snapshot / Resize have no refusal of their own: every failure they report is a per-replica one
@@ -1692,7 +1795,7 @@ func ruleC19Promote(rule string) ruleFn {
 			sites = append(sites, s)
 		}
 		c.Guard(rule, fn, sites, "promote at start", nil,
-			atom("admitted in WO first", "+"+fCtl+"addReplicaNoLock($0,invoke.Create($0.factory,$1)#0,$1,false) -nil ==0"),
+			func() Need { n := okcall(fCtl + "addReplicaNoLock"); n.Desc = "admitted in WO first"; return n }(),
 			atom("clone status read", "+"+gs+"#1 -nil ==0"),
 			atom("status not empty", `+"" -`+gs+"#0 !=0"),
 			atom("status not inProgress", `+"inProgress" -`+gs+"#0 !=0"),
